@@ -181,7 +181,8 @@ func (s *Sim) startRPC(rs *rpcState) {
 		rs.ctxVals = append(rs.ctxVals, ctxVal{k, v})
 	}
 	if len(r.OutMD) > 0 {
-		base = metadata.NewOutgoingContext(base, kvToMD(r.OutMD))
+		rs.outMD = kvToMD(r.OutMD)
+		base = metadata.NewOutgoingContext(base, rs.outMD)
 	}
 	rs.baseCtx = base
 	if r.DeadlineN > 0 {
@@ -423,6 +424,19 @@ func (s *Sim) clientOp(rs *rpcState, g int, st grpc.ClientStream, op Op) {
 		s.end(ev, nil)
 	case "mutate":
 		s.mutate(rs, 'c', g, op.Ref)
+	case "mutmd":
+		// the caller re-uses the metadata object it attached to the context
+		if rs.outMD != nil {
+			s.instant(r.ID, 'c', g, "mutmd", nil)
+			for k, vs := range rs.outMD {
+				for i := range vs {
+					vs[i] = "MUTATED-BY-CALLER"
+				}
+				rs.outMD[k] = vs
+			}
+			rs.outMD["caller-added-later"] = []string{"x"}
+			s.probe("caller-md-mutated")
+		}
 	case "sleep":
 		ev := s.begin(r.ID, 'c', g, "sleep")
 		s.sleep(time.Duration(op.D))
@@ -667,13 +681,36 @@ type handlerInfo struct {
 }
 
 // lookupRPC finds the RPC a registered handler serves.
-func (s *Sim) lookupRPC(svc, meth string) *rpcState {
+func (s *Sim) lookupRPC(svc, meth string) *rpcState { return s.lookupRPCctx(svc, meth, nil) }
+
+// lookupRPCctx: when several RPCs share one registered method (the same
+// method reached through different carriers), the caller's "x-sim-rpc"
+// metadata tells them apart.
+func (s *Sim) lookupRPCctx(svc, meth string, ctx context.Context) *rpcState {
+	var cands []*rpcState
 	for _, rs := range s.rpcs {
 		if rs.r.Svc == svc && rs.r.Meth == meth {
-			return rs
+			cands = append(cands, rs)
 		}
 	}
-	return nil
+	switch len(cands) {
+	case 0:
+		return nil
+	case 1:
+		return cands[0]
+	}
+	if ctx != nil {
+		if md, ok := metadata.FromIncomingContext(ctx); ok {
+			if v := md.Get("x-sim-rpc"); len(v) > 0 {
+				for _, rs := range cands {
+					if fmt.Sprint(rs.r.ID) == v[0] {
+						return rs
+					}
+				}
+			}
+		}
+	}
+	return cands[0]
 }
 
 func (s *Sim) handlerEnter(rs *rpcState, ctx context.Context, via string) *Event {
@@ -820,6 +857,11 @@ func (s *Sim) streamHandler(rs *rpcState, stream grpc.ServerStream) (err error) 
 			s.end(ev, nil)
 		case "mutate":
 			s.mutate(rs, 'h', 0, op.Ref)
+		case "readmd":
+			s.instant(r.ID, 'h', 0, "readmd", func(e *Event) {
+				md, _ := metadata.FromIncomingContext(ctx)
+				e.MD = mdCopy(md)
+			})
 		case "return":
 			return op.St.Err(ctx)
 		}
@@ -974,6 +1016,13 @@ func (s *Sim) unaryOp(rs *rpcState, ctx context.Context, op Op) {
 		s.end(ev, nil)
 	case "mutate":
 		s.mutate(rs, 'h', 0, op.Ref)
+	case "readmd":
+		s.instant(r.ID, 'h', 0, "readmd", func(e *Event) {
+			md, _ := metadata.FromIncomingContext(ctx)
+			e.MD = mdCopy(md)
+		})
+	case "nested":
+		s.nestedCall(rs, op.N, ctx)
 	}
 }
 
